@@ -243,6 +243,9 @@ def check_property(prop, tier="quick", seed=0, only=None, verbose=False, record_
     reg = C.load_all()
     _preimport()
     cts = [c for c in reg.values() if prop in c.serves and (only is None or c.cid in only)]
+    if C.LOAD_ERRORS:
+        for k, v in C.LOAD_ERRORS.items():
+            print("CONTRACT-FILE-ERROR %s: %s" % (k, v))
     if not cts:
         print("no contract serves", prop)
         return 3
